@@ -233,6 +233,19 @@ class Scenario:
             self.rec.inp(impl.loop.ticks, ("watchAll", lid))
             return f"in watchAll {lid}"
         fi = rng.randrange(len(FILTERS))
+        if rng.random() < 0.25:
+            # an AutoSubscribeServiceListener under a filter that may be wider than its eventgroup's service: offers the
+            # eventgroup does not apply to must be skipped (`for_service` -> None; found uncovered by the mutation sweep)
+            egi = rng.randrange(len(CLIENT_EGS))
+            key = (fi, "auto", egi)
+            f = FILTERS[fi]
+            if key in self.registered:
+                self.registered.discard(key)
+                self.rec.inp(impl.loop.ticks, ("unwatchAuto", fi, egi))
+                return f"in unwatch {sdio.svc_tok(f)} auto {sdio.eg_tok(CLIENT_EGS[egi])}"
+            self.registered.add(key)
+            self.rec.inp(impl.loop.ticks, ("watchAuto", fi, egi))
+            return f"in watch {sdio.svc_tok(f)} auto {sdio.eg_tok(CLIENT_EGS[egi])}"
         key = (fi, lid)
         f = FILTERS[fi]
         if key in self.registered:
